@@ -62,3 +62,16 @@ def translate(node, name):
     info = {"kind": "value", "params": [(names[0], (w, False)), (names[1], (w, False))], "ret": (w, False), "outs": [],
             "abort": False, "float": ty}
     return text, info
+
+
+def signature_info(node):
+    """info from the signature alone (for a function whose body is outside the subset), or None"""
+    sig = node["type"]["qualType"].replace(" ", "")
+    ty = sig.split("(")[0]
+    params = [c for c in node.get("inner", []) if c["kind"] == "ParmVarDecl"]
+    if ty not in FORMATS or sig != f"{ty}({ty},{ty})" or len(params) != 2:
+        return None
+    e, m = FORMATS[ty]
+    w = 1 + e + m
+    return {"kind": "value", "params": [(params[0]["name"], (w, False)), (params[1]["name"], (w, False))], "ret": (w, False),
+            "outs": [], "abort": False, "float": ty}
